@@ -227,13 +227,17 @@ class Translator:
             return None
         raise Unsupported(f'method name {name} is defined by several translated classes')
 
-    def field_owner(self, name):
+    def field_owner(self, name, recv=None, env=None):
         owners = [c for c in self.classes.values() if name in c.fields]
         if len(owners) == 1:
             return owners[0]
         if not owners:
             return None
-        raise Unsupported(f'field name {name} is used by several translated classes')
+        # several classes have a field of this name: the receiver's class must be known
+        ty = self.etype(recv, env) if recv is not None and env is not None else None
+        if ty and ty.startswith('obj:') and self.classes[ty[4:]] in owners:
+            return self.classes[ty[4:]]
+        raise Unsupported(f'field name {name} is used by several translated classes and the receiver class is unknown')
 
     # ------------------------------------------------------------ expression typing (coarse; only to pick
     # between the int operator and the object's dunder method, and to decide freshness)
@@ -265,7 +269,7 @@ class Translator:
                 if ci is not None:
                     return self.rettype.get(f'{ci.name}.{f.attr}')
         if isinstance(e, ast.Attribute):
-            ci = self.field_owner(e.attr)
+            ci = self.field_owner(e.attr, e.value, env)
             if ci is not None:
                 return 'int?'      # a field: int or bool, never an object we dispatch on (flags aside)
             ci = self.method_owner(e.attr)
@@ -340,6 +344,9 @@ class Translator:
         if isinstance(e, ast.Name):
             if e.id in self.modconsts:
                 return self.expr(self.modconsts[e.id], {}, deps)
+            if e.id in self.cur_locals:
+                # a local that is not bound on this path: Python raises UnboundLocalError (a NameError)
+                return '(Err NameErr)'
             raise Unsupported(f'unknown name {e.id} (line {e.lineno})')
         if isinstance(e, ast.BinOp):
             if type(e.op) not in BINOPS:
@@ -391,10 +398,10 @@ class Translator:
 
     def attribute(self, e, env, deps):
         # enum member handled in pure(); here: field or property of an object
-        ci = self.field_owner(e.attr)
+        ci = self.field_owner(e.attr, e.value, env)
         if ci is not None:
             i = ci.fields.index(e.attr)
-            return self.with_vals([e.value], env, lambda t: f'(py_getfield {ci.num} {i}%nat {t[0]})', deps)
+            return self.with_vals([e.value], env, lambda t: f'(py_getfield cls_{ci.name} fld_{ci.name}_{e.attr} {t[0]})', deps)
         ci = self.method_owner(e.attr)
         if ci is not None and e.attr in ci.props:
             return self.call_method(ci.name, e.attr, [e.value], env, deps, e)
@@ -420,24 +427,26 @@ class Translator:
             if kw.arg is None or kw.arg in given or kw.arg not in [p[0] for p in params]:
                 raise Unsupported(f'{q}: keyword argument {kw.arg} (line {node.lineno})')
             given[kw.arg] = kw.value
-        exprs = []
-        for name, d in params:
-            if name in given:
-                exprs.append(given[name])
-            elif d is not None:
-                exprs.append(d)         # default values are constants / enum members: evaluated in the empty scope
-            else:
-                raise Unsupported(f'{q}: missing argument {name} (line {node.lineno})')
-        # Python evaluates the given arguments left to right (positional then keywords in source order); all
-        # translated expressions are pure functions of the environment or raise: an exception raised by a later
-        # argument instead of an earlier one differs only in which error kind is reported.  To stay exact we
-        # require that at most one argument is non-pure or that all are evaluated in parameter order = source order.
-        order_src = [given[n] for n, _ in params if n in given]
+        # Python evaluates the given arguments in source order (positional, then keywords as written); do the same,
+        # then hand the values over in parameter order.  Defaults are constants / enum members (pure).
         src = list(args) + [kw.value for kw in keywords]
-        nonpure = [x for x in src if self.pure(x, env) is None]
-        if len(nonpure) > 1 and [id(x) for x in order_src] != [id(x) for x in src]:
-            raise Unsupported(f'{q}: keyword arguments out of parameter order with side conditions (line {node.lineno})')
-        return self.with_vals(exprs, env, k, deps)
+        src_names = [n for (n, _), _a in zip(params, args)] + [kw.arg for kw in keywords]
+
+        def k2(terms):
+            got = dict(zip(src_names, terms))
+            out = []
+            for name, d in params:
+                if name in got:
+                    out.append(got[name])
+                elif d is not None:
+                    pd = self.pure(d, {})
+                    if pd is None:
+                        raise Unsupported(f'{q}: default value of {name} is not a constant')
+                    out.append(pd)
+                else:
+                    raise Unsupported(f'{q}: missing argument {name} (line {node.lineno})')
+            return k(out)
+        return self.with_vals(src, env, k2, deps)
 
     def call_method(self, cname, mname, args, env, deps, node, keywords=()):
         """args[0] is the receiver expression."""
@@ -446,6 +455,8 @@ class Translator:
             return self.with_vals(args, env, lambda t: f'({ORACLES[(cname, mname)]} {" ".join(t)})', deps)
         if q not in self.funcs:
             raise Unsupported(f'call of untranslated method {q} (line {node.lineno})')
+        if q == self.cur_q:
+            raise Unsupported(f'recursive call of {q} (line {node.lineno})')
         deps.add(q)
         fd = self.funcs[q][1]
         recv = args[0]
@@ -523,7 +534,7 @@ class Translator:
         if n == 'bool':
             return 'py_isinstance_bool'
         if n in self.classes:
-            return f'(py_isinstance_cls {self.classes[n].num})'
+            return f'(py_isinstance_cls cls_{n})'
         if n in FOREIGN_CLASSES:
             return 'py_isinstance_never'
         raise Unsupported(f'isinstance against unknown class {n} (line {node.lineno})')
@@ -577,6 +588,8 @@ class Translator:
     def block(self, stmts, env, F):
         """Translate the statement list (with everything after it already appended) to a term."""
         if not stmts:
+            if 'end_envs' in F:
+                F['end_envs'].append(env)
             return F['fallthrough']
         st, rest = stmts[0], stmts[1:]
         deps = F['deps']
@@ -653,15 +666,20 @@ class Translator:
                     raise Unsupported(f'attribute store on unknown name {obj} (line {st.lineno})')
                 if not env[obj].get('fresh'):
                     raise Unsupported(f'attribute store on {obj}, which is not provably a fresh object (line {st.lineno})')
-                ci = self.field_owner(tgt.attr)
+                ci = self.field_owner(tgt.attr, tgt.value, env)
                 if ci is None:
                     raise Unsupported(f'store to unknown field {tgt.attr} (line {st.lineno})')
                 i = ci.fields.index(tgt.attr)
                 cn = env[obj]['coq']
                 body = self.with_vals([st.value], env,
-                                      lambda t: f'(py_setfield {ci.num} {i}%nat {cn} {t[0]})', deps)
+                                      lambda t: f'(py_setfield cls_{ci.name} fld_{ci.name}_{tgt.attr} {cn} {t[0]})', deps)
                 return f'(LET {cn} <- {body} IN {self.block(rest, env, F)})'
             raise Unsupported(f'assignment target (line {st.lineno})')
+        if isinstance(st, ast.If) and rest and not any(isinstance(n, ast.Return) for a in (st.body, st.orelse)
+                                                     for x in a for n in ast.walk(x)):
+            j = self.join_if(st, rest, env, F)
+            if j is not None:
+                return j
         if isinstance(st, ast.If):
             c = self.expr(st.test, env, deps)
             a = self.arm(st.body + rest, env, F, st.test)
@@ -670,8 +688,14 @@ class Translator:
         if isinstance(st, ast.Match):
             subj = self.fresh('s')
             subj_tm = self.expr(st.subject, env, deps)
-            acc = self.block(rest, env, F)              # no case matched: fall through
-            for case in reversed(st.cases):
+            cases = list(st.cases)
+            if cases and isinstance(cases[-1].pattern, ast.MatchAs) and cases[-1].pattern.pattern is None \
+                    and cases[-1].pattern.name is None and cases[-1].guard is None:
+                acc = self.arm(cases[-1].body + rest, env, F, None)     # irrefutable last case
+                cases = cases[:-1]
+            else:
+                acc = self.block(rest, env, F)          # no case matched: fall through
+            for case in reversed(cases):
                 if case.guard is not None:
                     raise Unsupported(f'guarded case (line {case.pattern.lineno})')
                 test = self.pattern(case.pattern, subj, st)
@@ -679,6 +703,46 @@ class Translator:
                 acc = f'(IF {test} THEN {body} ELSE {acc})'
             return f'(LET {subj} <- {subj_tm} IN {acc})'
         raise Unsupported(f'statement {type(st).__name__} (line {st.lineno})')
+
+    def join_if(self, st, rest, env, F):
+        """`if` whose arms cannot return: translate the arms once, joining the variables they (re)bind, instead of
+        duplicating the continuation.  Returns None when some joined variable is unbound at the end of an arm
+        (then the caller falls back to duplication, which models the UnboundLocalError exactly)."""
+        names = []
+        for a in (st.body, st.orelse):
+            for x in a:
+                for n in ast.walk(x):
+                    if isinstance(n, ast.Name) and isinstance(n.ctx, ast.Store) and n.id != '_' and n.id not in names:
+                        names.append(n.id)
+                    if isinstance(n, ast.Attribute) and isinstance(n.ctx, ast.Store) and isinstance(n.value, ast.Name) \
+                            and n.value.id not in names:
+                        names.append(n.value.id)
+        if not names:
+            return None
+        names.sort()
+        coq = ['v_' + n for n in names]
+        tup = f'(Ok (VTup [{"; ".join(coq)}]))' if len(names) > 1 else f'(Ok {coq[0]})'
+        F2 = dict(F, fallthrough=tup, end_envs=[])
+        c = self.expr(st.test, env, F['deps'])
+        try:
+            a = self.block(list(st.body), env, F2)
+            b = self.block(list(st.orelse), env, F2)
+        except Unsupported:
+            return None
+        ends = F2['end_envs']
+        if not ends or any(n not in e for e in ends for n in names):
+            return None
+        env2 = dict(env)
+        for n in names:
+            tys = {e[n].get('type') for e in ends}
+            env2[n] = {'coq': 'v_' + n, 'type': tys.pop() if len(tys) == 1 else None,
+                       'fresh': all(e[n].get('fresh') for e in ends)}
+        k = self.block(rest, env2, F)
+        j = self.fresh('j')
+        ite = f'(IF {c} THEN {a} ELSE {b})'
+        if len(names) == 1:
+            return f'(LET {coq[0]} <- {ite} IN {k})'
+        return (f'(LET {j} <- {ite} IN match {j} with VTup [{"; ".join(coq)}] => {k} | _ => Err TypeErr end)')
 
     def arm(self, stmts, env, F, guard):
         """An arm of an if/match; in the functions of PARTIAL_ARMS an arm guarded by a class test over a type
@@ -724,7 +788,7 @@ class Translator:
             cn = 'v_' + p.arg
             ty = None
             if i == 0 and cname is not None and not is_static:
-                ty = 'obj:' + cname
+                ty = ('enum:' if self.classes[cname].is_enum else 'obj:') + cname
             elif (q, p.arg) in PARAM_TYPES:
                 ty = PARAM_TYPES[(q, p.arg)]
             elif p.annotation is not None:
@@ -749,6 +813,8 @@ class Translator:
             init = f'(VObj {ci.num} [{"; ".join(["VNone"] * len(ci.fields))}])'
             pre = f'let v_self := {init} in '
         self.tmp = 0
+        self.cur_q = q
+        self.cur_locals = {n.id for n in ast.walk(fd) if isinstance(n, ast.Name) and isinstance(n.ctx, ast.Store)}
         body = self.block(list(fd.body), env, F)
         self.deps[q] = F['deps'] - {q}
         if q in F['deps']:
@@ -822,7 +888,11 @@ class Translator:
                 for m, v in c.members.items():
                     lines.append(f'Definition {c.name}_{m} : val := VEnum {c.num} ({v}).')
             if c.fields:
-                lines.append(f'(* fields of {c.name}: ' + ', '.join(f'{i}={f}' for i, f in enumerate(c.fields)) + ' *)')
+                for i, f in enumerate(c.fields):
+                    lines.append(f'Definition fld_{c.name}_{f} : nat := {i}%nat.')
+                srt = sorted(c.fields)
+                lines.append(f'Definition mk_{c.name} ' + ' '.join(f'(f{f} : val)' for f in srt) + ' : val := '
+                             f'VObj {c.num} [' + '; '.join(f'f{f}' for f in c.fields) + '].')
         lines.append('')
         lines.append('(* oracle: RealFloat._generate_randbits(rng, k) -- the drawn integer is the model argument `rng` *)')
         lines.append('Definition oracle_randbits (self rng k : val) : result val := '
